@@ -2,6 +2,7 @@
    directory invariant, and the frame property of the FTP session model (nothing that is
    not at or beneath the root changes). *)
 From HT Require Import Common.Bytes C11.Model.
+From HT Require C11.Check.
 From Coq Require Import ZifyBool ZifyN ZifyNat.
 Open Scope N_scope.
 
@@ -19,12 +20,22 @@ Definition clean_root (root : bytes) (rs : list comp) : Prop :=
 Definition inside (root k : bytes) : Prop := inside_b root k = true.
 
 (* ---- booleans ---- *)
+Lemma eqb_bytes_true a b : eqb_bytes a b = true <-> a = b.
+Proof.
+  revert b. induction a as [|x a IH]; intros [|y b]; cbn [eqb_bytes]; split; intros H;
+    try reflexivity; try discriminate.
+  - apply andb_true_iff in H as [E H]. apply N.eqb_eq in E. apply IH in H. congruence.
+  - inversion H; subst. rewrite N.eqb_refl. cbn [andb]. apply IH. reflexivity.
+Qed.
+
 Lemma eqb_bytes_refl a : eqb_bytes a a = true.
 Proof. apply eqb_bytes_true; reflexivity. Qed.
 
 Lemma eqb_bytes_false a b : eqb_bytes a b = false <-> a <> b.
 Proof.
-  unfold eqb_bytes; destruct (list_eq_dec N.eq_dec a b); split; intros; try congruence; contradiction.
+  pose proof (eqb_bytes_true a b) as T. destruct (eqb_bytes a b); split; intros H; try congruence.
+  - exfalso. apply H. apply T. reflexivity.
+  - intros E. apply T in E. discriminate.
 Qed.
 
 Lemma existsb_slash_false c : existsb (N.eqb SLASH) c = false <-> no_slash c.
@@ -764,4 +775,237 @@ Proof.
   intros Hroot cs k Hp Hn. pose proof (run_from_login root rs fs Hroot cs) as R.
   destruct (run (init_sess fs root) cs) as [[s' xs] f]. destruct R as (R & _).
   cbn [fst]. apply R. apply proper_prefix_not_inside; auto.
+Qed.
+
+(* ---- containment is component-wise, not textual ---- *)
+Lemma is_prefix_split p : forall s, is_prefix p s = true -> exists r, s = p ++ r.
+Proof.
+  induction p as [|x p IH]; intros s H.
+  - exists s; reflexivity.
+  - destruct s as [|y s]; cbn [is_prefix] in H; [discriminate|].
+    apply andb_true_iff in H as [E H]. apply N.eqb_eq in E; subst y.
+    destruct (IH s H) as [r ->]. exists r; reflexivity.
+Qed.
+
+Lemma comps_app_slash a b : comps (a ++ SLASH :: b) = comps a ++ comps b.
+Proof. unfold comps. rewrite split_app_slash, filter_app. reflexivity. Qed.
+
+(* the component list of anything inside the root starts with the root's component list *)
+Lemma inside_comps root rs k : clean_root root rs -> inside root k -> exists cs, comps k = rs ++ cs.
+Proof.
+  intros (Hne & Hg & ->) H. unfold inside, inside_b in H. apply orb_true_iff in H as [H|H].
+  - apply eqb_bytes_true in H; subst k. exists []. rewrite app_nil_r. apply comps_rooted; auto.
+  - apply is_prefix_split in H as [r ->]. rewrite <- app_assoc. cbn [app].
+    rewrite comps_app_slash, comps_rooted by auto. eexists; reflexivity.
+Qed.
+
+Lemma inside_componentwise root rs k : clean_root root rs -> rooted_clean k ->
+  (inside root k <-> exists cs, comps k = rs ++ cs).
+Proof.
+  intros Hroot Hk. split; [apply inside_comps; auto|].
+  intros (cs & E). destruct Hroot as (Hne & Hg & ->). destruct Hk as (ks & Hks & ->).
+  rewrite comps_rooted in E by auto. subst ks. apply rooted_inside; auto.
+Qed.
+
+Lemma real_path_componentwise root rs cwd p :
+  clean_root root rs -> rooted_clean cwd ->
+  exists cs, Forall good cs /\ comps (real_path root cwd p) = rs ++ cs.
+Proof.
+  intros (Hne & Hg & Hr) Hc.
+  destruct (real_path_shape root rs cwd p Hg Hr Hc) as (cs & Hcs & E).
+  exists cs. split; auto. rewrite E. apply comps_rooted. apply Forall_app; auto.
+Qed.
+
+(* textual prefix containment follows from containment ... (the converse fails: Properties) *)
+Lemma inside_text_prefixed root k : inside root k -> text_prefixed_b root k = true.
+Proof.
+  unfold inside, inside_b, text_prefixed_b. intros H. apply orb_true_iff in H as [H|H].
+  - apply eqb_bytes_true in H; subst k. rewrite <- (app_nil_r root) at 2. apply is_prefix_app.
+  - apply is_prefix_split in H as [r ->]. rewrite <- app_assoc. apply is_prefix_app.
+Qed.
+
+(* ---- the working directory names an existing directory ---- *)
+Lemma join_comps_nonempty c cs : c <> [] -> join_comps (c :: cs) <> [].
+Proof.
+  intros Hc. destruct cs; cbn [join_comps]; [auto|]. destruct c; [contradiction|discriminate].
+Qed.
+
+Lemma real_path_of_cwd root rs c' t : clean_root root rs -> rooted_clean t ->
+  real_path root c' t = under root t.
+Proof.
+  intros (Hne & Hg & ->) (cs & Hcs & ->).
+  unfold real_path. rewrite is_abs_rooted, clean_rooted_id by auto.
+  unfold join2. change (rooted_str rs) with (SLASH :: join_comps rs) at 1. cbv iota.
+  rewrite clean_rooted_app by auto. unfold under.
+  destruct cs as [|c cs].
+  - rewrite app_nil_r. reflexivity.
+  - inversion Hcs as [|? ? (Hc & _) _]; subst.
+    assert (E : eqb_bytes (rooted_str (c :: cs)) [SLASH] = false).
+    { apply eqb_bytes_false. unfold rooted_str. intros E. inversion E as [E'].
+      revert E'. apply join_comps_nonempty; auto. }
+    rewrite E. rewrite rooted_app_split by (auto; discriminate). reflexivity.
+Qed.
+
+Lemma change_dir_names_dir fs root rs cwd p h' :
+  clean_root root rs -> rooted_clean cwd ->
+  change_dir fs (mkH root cwd) p = CdOk h' -> is_dir fs (under root (h_cwd h')) = true.
+Proof.
+  intros Hroot Hc E. pose proof (change_dir_spec fs root rs cwd p Hroot Hc) as S.
+  rewrite E in S. destruct S as (_ & S2 & S3 & S4).
+  rewrite <- (real_path_of_cwd root rs [SLASH] (h_cwd h')) by auto. rewrite S4. exact S3.
+Qed.
+
+Fixpoint cd_dirs_ok (fs : hostfs) (root : bytes) (os : list hop) (xs : list (N * bytes)) : Prop :=
+  match os, xs with
+  | [], [] => True
+  | HCd _ :: os', (code, txt) :: xs' => (code = 0 -> is_dir fs (under root txt) = true) /\ cd_dirs_ok fs root os' xs'
+  | HReal _ :: os', _ :: xs' => cd_dirs_ok fs root os' xs'
+  | _, _ => False
+  end.
+
+Lemma hrun_cd_dirs fs root rs : clean_root root rs -> forall os h,
+  h_root h = root -> rooted_clean (h_cwd h) -> cd_dirs_ok fs root os (snd (hrun fs h os)).
+Proof.
+  intros Hroot. induction os as [|o os IH]; intros h Hr Hc; cbn [hrun]; [exact I|].
+  pose proof (hstep_inv fs root rs h o Hroot Hr Hc) as S.
+  destruct h as [r c]. cbn [h_root h_cwd] in *. subst r.
+  destruct o as [p|p]; cbn [hstep] in *.
+  - pose proof (change_dir_names_dir fs root rs c p) as D.
+    destruct (change_dir fs (mkH root c) p) as [h'| | |] eqn:E.
+    + destruct S as (S1 & S2 & _). specialize (IH h' S1 S2).
+      destruct (hrun fs h' os) as [h2 xs]. cbn [snd cd_dirs_ok] in *. split; auto.
+    + specialize (IH (mkH root c) eq_refl Hc). destruct (hrun fs (mkH root c) os) as [h2 xs].
+      cbn [snd cd_dirs_ok] in *. split; auto. discriminate.
+    + specialize (IH (mkH root c) eq_refl Hc). destruct (hrun fs (mkH root c) os) as [h2 xs].
+      cbn [snd cd_dirs_ok] in *. split; auto. discriminate.
+    + specialize (IH (mkH root c) eq_refl Hc). destruct (hrun fs (mkH root c) os) as [h2 xs].
+      cbn [snd cd_dirs_ok] in *. split; auto. discriminate.
+  - specialize (IH (mkH root c) eq_refl Hc). destruct (hrun fs (mkH root c) os) as [h2 xs].
+    cbn [snd cd_dirs_ok] in *. exact IH.
+Qed.
+
+(* FTP: along command sequences that change nothing on the host, the working directory keeps
+   naming an existing directory inside the root, and so does every PWD text *)
+Definition cwd_is_dir (root : bytes) (s : sess) : Prop :=
+  is_dir (s_fs s) (under root (h_cwd (s_h s))) = true.
+
+Definition obs_of (r : resp) : list N * payload := (r_codes r, r_pay r).
+
+Fixpoint pwd_texts_dirs (root : bytes) (fs : hostfs) (cs : list cmd) (os : list (list N * payload)) : Prop :=
+  match cs, os with
+  | CPwd :: cs', (_, PText t) :: os' => is_dir fs (under root t) = true /\ pwd_texts_dirs root fs cs' os'
+  | _ :: cs', _ :: os' => pwd_texts_dirs root fs cs' os'
+  | _, _ => True
+  end.
+
+Lemma readonly_step root rs s c s' r :
+  clean_root root rs -> sess_ok root s -> cwd_is_dir root s -> readonly_cmd c = true ->
+  step s c = Some (s', r) ->
+  s_fs s' = s_fs s /\ cwd_is_dir root s' /\
+  match c with CPwd => r_pay r = PText (h_cwd (s_h s)) | _ => True end.
+Proof.
+  intros Hroot Hs Hd Hro H.
+  assert (CWD : forall p s0 r0, do_cwd s p = Some (s0, r0) -> s_fs s0 = s_fs s /\ cwd_is_dir root s0).
+  { intros p s0 r0 E. unfold do_cwd in E. destruct Hs as (Hr & Hc).
+    destruct (s_h s) as [hr hc] eqn:Eh. cbn [h_root h_cwd] in *. subst hr.
+    pose proof (change_dir_names_dir (s_fs s) root rs hc p) as D.
+    destruct (change_dir (s_fs s) (mkH root hc) p) as [h'| | |] eqn:Ec; inversion E; subst; split; auto.
+    unfold cwd_is_dir. cbn [s_fs s_h]. auto. }
+  assert (NP : forall p k s0 r0, need_param p k s = Some (s0, r0) -> s0 = s \/ k tt = Some (s0, r0)).
+  { intros p k s0 r0 E. unfold need_param in E. destruct p; [left; inversion E; auto|right; auto]. }
+  destruct c; try discriminate; cbn [step] in H.
+  - inversion H; subst. cbn [r_pay]. auto.
+  - apply NP in H as [->|H]; [auto|]. destruct (CWD _ _ _ H); auto.
+  - destruct (CWD _ _ _ H); auto.
+  - inversion H; subst. auto.
+  - inversion H; subst. cbn [s_fs]. split; auto.
+  - inversion H; subst. cbn [s_fs]. split; auto.
+  - apply NP in H as [->|H]; [auto|].
+    destruct (lookup (s_fs s) (rp_of s p)) as [[|x]|]; inversion H; subst; cbn [s_fs]; split; auto.
+  - inversion H; subst. auto.
+  - inversion H; subst. auto.
+  - apply NP in H as [->|H]; [auto|].
+    destruct (lookup (s_fs s) (rp_of s p)); inversion H; subst; auto.
+  - apply NP in H as [->|H]; [auto|].
+    destruct (lookup (s_fs s) (rp_of s p)) as [[|x]|]; inversion H; subst; auto.
+Qed.
+
+Lemma readonly_run root rs : clean_root root rs -> forall cs s,
+  sess_ok root s -> cwd_is_dir root s -> forallb readonly_cmd cs = true ->
+  let '(s', rsps, _) := run s cs in
+  s_fs s' = s_fs s /\ cwd_is_dir root s' /\ pwd_texts_dirs root (s_fs s) cs (map obs_of rsps).
+Proof.
+  intros Hroot. induction cs as [|c cs IH]; intros s Hs Hd Hro; cbn [run].
+  - cbn [map pwd_texts_dirs]. auto.
+  - cbn [forallb] in Hro. apply andb_true_iff in Hro as [Hc Hro].
+    destruct (step s c) as [[s1 x]|] eqn:E.
+    + pose proof (step_inv root rs s c s1 x Hroot Hs E) as (P1 & _ & _).
+      pose proof (readonly_step root rs s c s1 x Hroot Hs Hd Hc E) as (Q1 & Q2 & Q3).
+      specialize (IH s1 P1 Q2 Hro). destruct (run s1 cs) as [[s2 xs] f].
+      destruct IH as (I1 & I2 & I3). rewrite Q1 in I1, I3.
+      split; auto. split; auto. cbn [map]. unfold obs_of at 1.
+      destruct c; cbn [pwd_texts_dirs]; auto.
+      rewrite Q3. split; auto.
+    + destruct c; cbn [map pwd_texts_dirs]; auto.
+Qed.
+
+(* the executable judgements of Check never fire on the model's own observations *)
+Lemma pwd_texts_dirs_b root fs : forall cs os,
+  pwd_texts_dirs root fs cs os -> Check.FtpCheck.pwd_nodir root fs cs os = false.
+Proof.
+  induction cs as [|c cs IH]; intros os H; [reflexivity|].
+  destruct os as [|[codes pay] os]; [destruct c; reflexivity|].
+  destruct c; cbn [pwd_texts_dirs Check.FtpCheck.pwd_nodir] in *; try (apply IH; exact H).
+  destruct pay; try (apply IH; exact H).
+  destruct H as [H1 H2]. rewrite H1. cbn [negb orb]. apply IH; exact H2.
+Qed.
+
+Lemma readonly_session_pwd root rs fs : clean_root root rs -> is_dir fs root = true -> forall cs,
+  forallb readonly_cmd cs = true ->
+  let '(s', rsps, _) := run (init_sess fs root) cs in
+  s_fs s' = fs /\ Check.FtpCheck.pwd_nodir root fs cs (map obs_of rsps) = false.
+Proof.
+  intros Hroot Hd cs Hro.
+  pose proof (readonly_run root rs Hroot cs (init_sess fs root) (init_sess_ok fs root)) as R.
+  destruct (run (init_sess fs root) cs) as [[s' xs] f].
+  destruct R as (R1 & _ & R3); auto.
+  split; auto. apply pwd_texts_dirs_b. exact R3.
+Qed.
+
+Lemma hrun_obs_sig_cd fs root rs : clean_root root rs -> forall os h,
+  h_root h = root -> rooted_clean (h_cwd h) ->
+  Check.HtfsCheck.obs_sig fs root os (snd (hrun fs h os)) = 0.
+Proof.
+  intros Hroot os h Hr Hc.
+  pose proof (hrun_inv fs root rs Hroot os h Hr Hc) as A.
+  pose proof (hrun_cd_dirs fs root rs Hroot os h Hr Hc) as B.
+  destruct (hrun fs h os) as [h' xs]. destruct A as (_ & _ & A). cbn [snd] in *.
+  revert xs A B. induction os as [|o os IH]; intros xs A B.
+  - destruct xs; [reflexivity|contradiction].
+  - destruct xs as [|[code txt] xs]; [destruct o; contradiction|].
+    cbn [obs_ok] in A. destruct A as (A1 & A2 & A3 & A4).
+    destruct o as [p|p]; cbn [cd_dirs_ok Check.HtfsCheck.obs_sig] in *.
+    + destruct B as [B1 B2].
+      assert (E1 : rooted_clean_b txt = true) by (apply rooted_clean_b_spec; auto).
+      assert (E2 : Check.HtfsCheck.real_ok root (under root txt) = true).
+      { rewrite <- (real_path_of_cwd root rs [SLASH] txt) by auto.
+        destruct (real_path_inside root rs [SLASH] txt Hroot) as [I1 I2].
+        { exists []. split; [constructor|reflexivity]. }
+        unfold Check.HtfsCheck.real_ok. apply rooted_clean_b_spec in I2. rewrite I2. exact I1. }
+      rewrite E1, E2. cbn [andb].
+      destruct (code =? 0) eqn:Ec.
+      * apply N.eqb_eq in Ec. rewrite (B1 Ec). cbn [negb andb]. apply IH; auto.
+      * cbn [andb]. apply IH; auto.
+    + assert (E : Check.HtfsCheck.real_ok root txt = true).
+      { unfold Check.HtfsCheck.real_ok. apply rooted_clean_b_spec in A2. rewrite A2. exact A3. }
+      rewrite E. apply IH; auto.
+Qed.
+
+Lemma hrun_cd_names_dir fs root rs : clean_root root rs -> forall os h,
+  h_root h = root -> rooted_clean (h_cwd h) ->
+  cd_dirs_ok fs root os (snd (hrun fs h os)) /\
+  Check.HtfsCheck.obs_sig fs root os (snd (hrun fs h os)) = 0.
+Proof.
+  intros H os h H1 H2.
+  exact (conj (hrun_cd_dirs fs root rs H os h H1 H2) (hrun_obs_sig_cd fs root rs H os h H1 H2)).
 Qed.
